@@ -70,7 +70,7 @@ func presetCfg(t *rapid.T) gen.AsmConfig {
 
 func presetCfg0(t *rapid.T) gen.AsmConfig {
 	legacy := rapid.IntRange(0, 2).Draw(t, "dialect") == 0
-	switch rapid.IntRange(0, 4).Draw(t, "preset") {
+	switch rapid.IntRange(0, 5).Draw(t, "preset") {
 	case 0:
 		return gen.AsmConfig{Legacy: legacy, CoreSize: 80, Length: 5, Distance: 5, Processes: 80}
 	case 1:
@@ -79,8 +79,11 @@ func presetCfg0(t *rapid.T) gen.AsmConfig {
 		return gen.AsmConfig{Legacy: legacy, CoreSize: 8000, Length: 100, Distance: 100, Processes: 8000}
 	case 3:
 		return gen.AsmConfig{Legacy: legacy, CoreSize: 8192, Length: 300, Distance: 100, Processes: 8000}
-	default:
+	case 4:
 		return gen.AsmConfig{Legacy: legacy, CoreSize: 1 << 34, Length: 100000, Distance: 100, Processes: 8000}
+	default:
+		// valid but extreme: lengths and limits near the top of the number range
+		return gen.AsmConfig{Legacy: legacy, CoreSize: 1 << 44, Length: 1 << 43, Distance: 1 << 43, Processes: 1 << 40}
 	}
 }
 
@@ -176,7 +179,7 @@ func adversarial(t *rapid.T) string {
 	case 9: // pseudo-ops in odd places
 		return rapid.SampledFrom([]string{"equ 5\n", "x equ\n", "org\n", "end end\n", "for\n", "x for\nrof\n", "org 0\norg 1\ndat 0\ndat 0\n", "end\ngarbage = | &\n", "x equ 1\nx equ 2\ndat x\n", "x dat 0\nx dat 1\n", "dat\n", "dat ,\n", "dat 1,\n", "mov.\n", ".\n", ":\n", "a:\n", "a: b: c:\n", ";assert\n", ";assert (\n", ";assert 1 ==\n", ";assert 1/0\ndat 0\n", "for 2\n;assert 0\nrof\n",
 			"x equ ;c\ndat x\n", "x equ;\ndat 1, x\n", "x equ ; c\ny equ x\ndat y+1\n", "x equ ;c\nfor x\ndat 0\nrof\n", "x equ ;c\n;assert x\ndat 0\n", "x equ ;c\norg x\ndat 0\n",
-			"org ;c\ndat 0\n", "end ;c\n", "for ;c\ndat 0\nrof\n", "dat ;c\n", "dat 0, \u0663\n", "dat \uff11\n", "dat 0\u0663\n", "x equ \u0663\ndat x\n", "for \u0663\ndat 0\nrof\n", ";assert \u0663\ndat 0\n", "dat \u00b2\n", "l\u0663 dat l\u0663\n", "dat 1, ;c\n", "x equ ( ;c\ndat x )\n"}).Draw(t, "odd")
+			"org ;c\ndat 0\n", "end ;c\n", "for ;c\ndat 0\nrof\n", "dat ;c\n", ";assert CORESIZE != 8192\ndat 0\n", ";assert 1 ? 2\ndat 0\n", ";assert ~1\ndat 0\n", ";assert [1]\ndat 0\n", ";assert 1 = 2\ndat 0\n", ";assert 1 | 2\ndat 0\n", ";assert \"x\"\ndat 0\n", ";assert \u00e9\ndat 0\n", ";assert 1 \\ 2\ndat 0\n", "dat 0, \u0663\n", "dat \uff11\n", "dat 0\u0663\n", "x equ \u0663\ndat x\n", "for \u0663\ndat 0\nrof\n", ";assert \u0663\ndat 0\n", "dat \u00b2\n", "l\u0663 dat l\u0663\n", "dat 1, ;c\n", "x equ ( ;c\ndat x )\n"}).Draw(t, "odd")
 	case 10: // nested FORs with counters in counts
 		a := rapid.IntRange(0, 5).Draw(t, "a")
 		return fmt.Sprintf("i for %d\nj for i\ndat i, j\nrof\nrof\n", a) + "dat 0" + nl()
@@ -405,9 +408,19 @@ func scaleText(family string, n int) string {
 		sb.WriteString("dat 0\n")
 	case "for_flat":
 		fmt.Fprintf(&sb, "i for %d\ndat i\nrof\n", n)
-	case "for_blocks": // many sequential small blocks
-		for i := 0; i < n/8; i++ {
-			sb.WriteString("i for 2\ndat i\nrof\n")
+	case "for_blocks": // many sequential small blocks (n/40 of them) among plain lines
+		for i := 0; i < n/40; i++ {
+			sb.WriteString("i for 1\ndat i\nrof\n")
+			for k := 0; k < 37; k++ {
+				sb.WriteString("dat 0\n")
+			}
+		}
+	case "for_blocks_equ": // n/40 sequential blocks after n/4 unrelated EQU lines
+		for i := 0; i < n/4; i++ {
+			fmt.Fprintf(&sb, "s%d equ %d\n", i, i%5)
+		}
+		for i := 0; i < n/40; i++ {
+			sb.WriteString("i for 1\ndat i\nrof\n")
 		}
 	case "one_label_many_names":
 		for i := 0; i < n; i++ {
@@ -418,10 +431,10 @@ func scaleText(family string, n int) string {
 	return sb.String()
 }
 
-var scaleFamilies = []string{"equ_chain", "equ_fanout", "equ_many", "labels", "lines", "comments", "for_flat", "one_label_many_names"}
+var scaleFamilies = []string{"for_blocks", "for_blocks_equ", "equ_chain", "equ_fanout", "equ_many", "labels", "lines", "comments", "for_flat", "one_label_many_names"}
 
 func genScaleCase(t *rapid.T) scaleCase {
-	return scaleCase{Family: rapid.SampledFrom(scaleFamilies).Draw(t, "family"), N: rapid.SampledFrom([]int{12000, 16000, 10000}).Draw(t, "n")}
+	return scaleCase{Family: rapid.SampledFrom(scaleFamilies).Draw(t, "family"), N: rapid.SampledFrom([]int{6000, 8000, 7000}).Draw(t, "n")}
 }
 
 func judgeScaleCase(t testing.TB) func(c scaleCase, rec *hx.Rec) string {
@@ -476,8 +489,8 @@ func TestC05_Scaling(t *testing.T) {
 		t.Skip("timing comparisons run on one shard only (they need a quiet core)")
 	}
 	hx.Run(t, hx.Prop[scaleCase]{
-		ID: "C05", Sub: "scaling", Checks: hx.Scale(9, 48),
-		Rule: "time proportional to input size: structured families (EQU chain, one EQU referring to n symbols, n independent EQUs, n labelled lines, n plain lines, n comment lines, one flat FOR of n, n label names on one instruction) are assembled at n and at 5n in the isolated worker (best of three runs each); it is a violation when the larger run takes more than 300 ms and more than 12 times the smaller one (linear: about 5, quadratic: 25). Every case is non-trivial; distinct by (family, n).",
+		ID: "C05", Sub: "scaling", Checks: hx.Scale(12, 60),
+		Rule: "time proportional to input size: structured families (n/40 sequential FOR blocks among plain lines, the same after n/4 unrelated EQU lines, EQU chain, one EQU referring to n symbols, n independent EQUs, n labelled lines, n plain lines, n comment lines, one flat FOR of n, n label names on one instruction) are assembled at n and at 5n in the isolated worker (best of three runs each); it is a violation when the larger run takes more than 300 ms and more than 12 times the smaller one (linear: about 5, quadratic: 25). Every case is non-trivial; distinct by (family, n).",
 		Gen: genScaleCase, Judge: judgeScaleCase(t),
 	})
 }
